@@ -181,6 +181,31 @@ def oleq_cases(args):
     return t
 
 
+def thin_records(template):
+    """attitudes whose x axis is within 0.03 degrees of the vertical (nose up / nose down) but not vertical, at several headings and
+    rolls: in general position, next to the pose the closed-form estimators exclude.  Same record format as TLC's, evaluated by the
+    integer mirror of SensorWorld!Meas (the numerators exceed TLC's 32 bits)."""
+    from ..core import qmul_int, M_int, norm2
+    recs = []
+    convs = template["conv"]
+    for qy in ((4000, 0, 3998, 0), (3000, 0, -2999, 0), (2500, 0, 2499, 0)):
+        for qz in ((3, 0, 0, 1), (1, 0, 0, -2), (7, 0, 0, 5)):
+            for qx in ((5, 1, 0, 0), (2, -1, 0, 0), (9, 4, 0, 0)):
+                u = qmul_int(qmul_int(qz, qy), qx)
+                if not all(u):
+                    continue
+                Mu = M_int(u)
+                for d in ((4, 3), (3, 4), (12, -5)):
+                    meas = []
+                    for cv in convs:
+                        g, form, typ = cv
+                        refs = (list(g), [int(x) for x in SW.href(form, d)])
+                        rows = Mu if typ == "A" else [[Mu[j][i] for j in range(3)] for i in range(3)]
+                        meas.append([[sum(rows[i][j] * r[j] for j in range(3)) for i in range(3)] for r in refs])
+                    recs.append({"u": list(u), "dip": list(d), "N": norm2(u), "conv": convs, "meas": meas, "gp": True})
+    return recs
+
+
 def run(chk, only=None):
     quick = chk.tier == "quick"
     chk.rule = ("attitudes (canonical sign) of L(1) [quick] / L(2) [thorough] for the singularity-free class and the general-position "
@@ -200,6 +225,9 @@ def run(chk, only=None):
     with mp.get_context("fork").Pool(16) as pool:
         tallies = pool.map(replay_chunk, chunks)
     core.merge(chk, tallies)
+    thin = thin_records(recs[0])
+    with mp.get_context("fork").Pool(16) as pool:
+        core.merge(chk, pool.map(replay_chunk, [(thin[i::16], scales[:1], only) for i in range(16)]))
     seen_u = {}
     for r in recs:
         seen_u.setdefault(tuple(r["u"]), r)
